@@ -625,3 +625,184 @@ Definition op_JUMP (code : list Z) (pos : Z) : res Z :=
   | Err e => Err e | Panic => Panic end.
 Definition op_JUMPI (code : list Z) (pc pos cond : Z) : res Z :=
   if negb (Z.sgn cond =? 0) then op_JUMP code pos else Ok (wrap64 (pc + 1)).
+
+(* ================================================================== SHA3, environment
+   instructions, state-dependent gas functions (second wave; additions only) *)
+
+(* opSha3: data := memory.Get(offset.Int64(), size.Int64()); hash := H(data); push SetBytes(hash).
+   H is the hash on byte strings (crypto.Keccak256); Memory.Get's nil result hashes as the
+   empty string. *)
+Definition op_SHA3_H (H : list Z -> list Z) (mem : list Z) (offset size : Z) : res Z :=
+  match mem_get mem (big_Int64 offset) (big_Int64 size) with
+  | Ok data => Ok (be_to_Z (H data))
+  | Err e => Err e
+  | Panic => Panic
+  end.
+
+(* the values the environment instructions read: contract.Address(), contract.Caller(),
+   contract.value, evm.Origin, evm.GasPrice, evm.Coinbase, evm.Time, evm.BlockNumber,
+   evm.Difficulty, evm.GasLimit (addresses as the integer of their 20 bytes) *)
+Record envinfo : Type := {
+  e_address : Z; e_caller : Z; e_callvalue : Z; e_origin : Z; e_gasprice : Z;
+  e_coinbase : Z; e_time : Z; e_number : Z; e_difficulty : Z; e_gaslimit : Z }.
+
+(* the instructions that only push a value read from the frame: opAddress, opOrigin,
+   opCaller, opCallValue, opCallDataSize, opCodeSize, opGasprice, opReturnDataSize,
+   opCoinbase, opTimestamp, opNumber, opDifficulty, opGasLimit, opPc, opMsize, opGas.
+   TIMESTAMP, NUMBER, DIFFICULTY, GASLIMIT are wrapped with U256 by the Go code, the
+   others are pushed as they are. *)
+Definition op_ENV (op : Z) (e : envinfo) (input code returnData mem : list Z) (pc gas : Z) : option Z :=
+  if op =? 0x30 then Some (e_address e)
+  else if op =? 0x32 then Some (e_origin e)
+  else if op =? 0x33 then Some (e_caller e)
+  else if op =? 0x34 then Some (e_callvalue e)
+  else if op =? 0x36 then Some (blen input)
+  else if op =? 0x38 then Some (blen code)
+  else if op =? 0x3a then Some (e_gasprice e)
+  else if op =? 0x3d then Some (blen returnData)
+  else if op =? 0x41 then Some (e_coinbase e)
+  else if op =? 0x42 then Some (U256 (e_time e))
+  else if op =? 0x43 then Some (U256 (e_number e))
+  else if op =? 0x44 then Some (U256 (e_difficulty e))
+  else if op =? 0x45 then Some (U256 (big_Uint64 (e_gaslimit e)))
+  else if op =? 0x58 then Some pc
+  else if op =? 0x59 then Some (blen mem)
+  else if op =? 0x5a then Some gas
+  else None.
+
+(* opPop *)
+Definition op_POP (st : list Z) : res (list Z) := match st with _ :: r => Ok r | [] => Panic end.
+
+(* ---- params / full gas table ---- *)
+Definition SstoreSetGas : Z := 20000.
+Definition SstoreClearGas : Z := 5000.
+Definition SstoreResetGas : Z := 5000.
+Definition SstoreRefundGas : Z := 15000.
+Definition CallNewAccountGas : Z := 25000.
+Definition CallValueTransferGas : Z := 9000.
+Definition SuicideRefundGas : Z := 24000.
+Definition CallStipend : Z := 2300.
+
+(* params.GasTable with all its fields ([gastable] above keeps the four the first wave used) *)
+Record gastable_full : Type := {
+  gf_ExtcodeSize : Z; gf_ExtcodeCopy : Z; gf_Balance : Z; gf_SLoad : Z; gf_Calls : Z;
+  gf_Suicide : Z; gf_ExpByte : Z; gf_CreateBySuicide : Z }.
+Definition GasTableHomestead_full : gastable_full :=
+  {| gf_ExtcodeSize := 700; gf_ExtcodeCopy := 700; gf_Balance := 400; gf_SLoad := 200; gf_Calls := 700;
+     gf_Suicide := 5000; gf_ExpByte := 10; gf_CreateBySuicide := 25000 |}.
+Definition GasTableHF1_full : gastable_full :=
+  {| gf_ExtcodeSize := 700; gf_ExtcodeCopy := 700; gf_Balance := 400; gf_SLoad := 200; gf_Calls := 700;
+     gf_Suicide := 5000; gf_ExpByte := 50; gf_CreateBySuicide := 25000 |}.
+Definition gt_of_full (g : gastable_full) : gastable :=
+  {| gt_ExpByte := gf_ExpByte g; gt_CreateBySuicide := gf_CreateBySuicide g; gt_Calls := gf_Calls g;
+     gt_ExtcodeCopy := gf_ExtcodeCopy g |}.
+Definition select_gastable_full (c : chaincfg) (num : Z) : gastable_full :=
+  if isForked (cc_hf1 c) num then GasTableHF1_full else GasTableHomestead_full.
+
+(* gasBalance / gasExtCodeSize / gasSLoad *)
+Definition gasBalance (g : gastable_full) : Z := gf_Balance g.
+Definition gasExtCodeSize (g : gastable_full) : Z := gf_ExtcodeSize g.
+Definition gasSLoad (g : gastable_full) : Z := gf_SLoad g.
+
+(* gasSStore: cur = StateDB.GetState(address, Back(0)), y = Back(1) (the value to store);
+   common.EmptyHash(BigToHash(y)) looks at the low 256 bits.  Returns (gas, refund added). *)
+Definition gasSStore (cur y : Z) : Z * Z :=
+  let curEmpty := U256 cur =? 0 in
+  let yEmpty := U256 y =? 0 in
+  if curEmpty && negb yEmpty then (SstoreSetGas, 0)
+  else if negb curEmpty && yEmpty then (SstoreClearGas, SstoreRefundGas)
+  else (SstoreResetGas, 0).
+
+(* gasCall: value = Back(2), callCost = Back(0); addrEmpty = StateDB.Empty(address), addrExist =
+   StateDB.Exist(address); contractGas = contract.Gas.  The additions before the SafeAdd are plain
+   uint64 additions.  Returns (gas, evm.callGasTemp, new lastGasCost). *)
+Definition gasCall (g : gastable_full) (eip158 : bool) (value : Z) (addrEmpty addrExist : bool)
+    (memLen lastGasCost memorySize contractGas callCost : Z) : res (Z * Z * Z) :=
+  let transfersValue := negb (Z.sgn value =? 0) in
+  let gas0 := gf_Calls g in
+  let gas1 :=
+    if eip158 then (if transfersValue && addrEmpty then wrap64 (gas0 + CallNewAccountGas) else gas0)
+    else if negb addrExist then wrap64 (gas0 + CallNewAccountGas) else gas0 in
+  let gas2 := if transfersValue then wrap64 (gas1 + CallValueTransferGas) else gas1 in
+  match memoryGasCost memLen lastGasCost memorySize with
+  | Ok (memoryGas, last') =>
+      let '(gas3, o1) := SafeAdd gas2 memoryGas in
+      if o1 then Err ErrGasUintOverflow else
+      match callGas (gt_of_full g) contractGas gas3 callCost with
+      | Ok temp =>
+          let '(gas4, o2) := SafeAdd gas3 temp in
+          if o2 then Err ErrGasUintOverflow else Ok (gas4, temp, last')
+      | Err e => Err e
+      | Panic => Panic
+      end
+  | Err e => Err e
+  | Panic => Panic
+  end.
+
+(* gasCallCode *)
+Definition gasCallCode (g : gastable_full) (value : Z)
+    (memLen lastGasCost memorySize contractGas callCost : Z) : res (Z * Z * Z) :=
+  let gas0 := gf_Calls g in
+  let gas2 := if negb (Z.sgn value =? 0) then wrap64 (gas0 + CallValueTransferGas) else gas0 in
+  match memoryGasCost memLen lastGasCost memorySize with
+  | Ok (memoryGas, last') =>
+      let '(gas3, o1) := SafeAdd gas2 memoryGas in
+      if o1 then Err ErrGasUintOverflow else
+      match callGas (gt_of_full g) contractGas gas3 callCost with
+      | Ok temp =>
+          let '(gas4, o2) := SafeAdd gas3 temp in
+          if o2 then Err ErrGasUintOverflow else Ok (gas4, temp, last')
+      | Err e => Err e
+      | Panic => Panic
+      end
+  | Err e => Err e
+  | Panic => Panic
+  end.
+
+(* gasDelegateCall / gasStaticCall (identical bodies): memory first, then gt.Calls *)
+Definition gasDelegateCall (g : gastable_full)
+    (memLen lastGasCost memorySize contractGas callCost : Z) : res (Z * Z * Z) :=
+  match memoryGasCost memLen lastGasCost memorySize with
+  | Ok (gas0, last') =>
+      let '(gas3, o1) := SafeAdd gas0 (gf_Calls g) in
+      if o1 then Err ErrGasUintOverflow else
+      match callGas (gt_of_full g) contractGas gas3 callCost with
+      | Ok temp =>
+          let '(gas4, o2) := SafeAdd gas3 temp in
+          if o2 then Err ErrGasUintOverflow else Ok (gas4, temp, last')
+      | Err e => Err e
+      | Panic => Panic
+      end
+  | Err e => Err e
+  | Panic => Panic
+  end.
+Definition gasStaticCall := gasDelegateCall.
+
+(* gasSuicide: addrEmpty / addrExist about the beneficiary Back(0); balanceNonZero =
+   GetBalance(contract.Address()).Sign() != 0; hasSuicided = HasSuicided(contract.Address()).
+   Returns (gas, refund added). *)
+Definition gasSuicide (g : gastable_full) (eip150 eip158 addrEmpty addrExist balanceNonZero hasSuicided : bool) : Z * Z :=
+  let gas :=
+    if eip150 then
+      let gas0 := gf_Suicide g in
+      if eip158 then (if addrEmpty && balanceNonZero then wrap64 (gas0 + gf_CreateBySuicide g) else gas0)
+      else if negb addrExist then wrap64 (gas0 + gf_CreateBySuicide g) else gas0
+    else 0 in
+  (gas, if negb hasSuicided then SuicideRefundGas else 0).
+
+(* ---- interpreter.go: chain rules and write protection ---- *)
+
+(* the fork blocks params.ChainConfig.Rules reads *)
+Record rulescfg : Type := {
+  rc_homestead : option Z; rc_eip150 : option Z; rc_eip155 : option Z; rc_eip158 : option Z; rc_byzantium : option Z }.
+Record rules : Type := { r_homestead : bool; r_eip150 : bool; r_eip155 : bool; r_eip158 : bool; r_byzantium : bool }.
+(* ChainConfig.Rules(num) as NewEVM stores it in evm.chainRules *)
+Definition select_rules (c : rulescfg) (num : Z) : rules :=
+  {| r_homestead := isForked (rc_homestead c) num; r_eip150 := isForked (rc_eip150 c) num;
+     r_eip155 := isForked (rc_eip155 c) num; r_eip158 := isForked (rc_eip158 c) num;
+     r_byzantium := isForked (rc_byzantium c) num |}.
+
+(* Interpreter.enforceRestrictions: true = errWriteProtection.  isCall = (op == CALL),
+   value = stack.Back(2) *)
+Definition enforceRestrictions (isByzantium readOnly writes isCall : bool) (value : Z) : bool :=
+  isByzantium && readOnly && (writes || (isCall && (BitLen value >? 0))).
